@@ -42,8 +42,9 @@ struct C10 : Harness {
             }
             // the call under test
             int maxlen = mant ? 40 : 3 * bs + 16;
-            int len = *rc::gen::weightedOneOf<int>({{12, irange(0, maxlen)}, {mant ? 5 : 0, rc::gen::just(16)}, {1, rc::gen::element(0x7fffffff, (int)0x80000000, -1, 0x10000 + bs, 0x100 + bs, 0x10000 * bs)}});
-            int rounds = mant ? *rc::gen::weightedOneOf<int>({{5, irange(5, 8)}, {3, irange(0, 12)}, {1, rc::gen::element(-1, 0x7fffffff, 256 + 6, 0x10006)}}) : 0;
+            int legal = mant ? 16 : *irange(bs, (tkentry ? 2 : 3) * bs);
+            int len = *rc::gen::weightedOneOf<int>({{12, irange(0, maxlen)}, {mant ? 5 : 0, rc::gen::just(16)}, {2, ghuge(legal)}});
+            int rounds = mant ? *rc::gen::weightedOneOf<int>({{5, irange(5, 8)}, {3, irange(0, 12)}, {1, irange(13, 80)}, {2, ghuge(*irange(5, 8))}}) : 0;
             size_t have = (size_t)std::min<long long>((unsigned)len, (long long)maxlen);
             Op k = setkey(len, rounds, *gbytes(have), fn);
             k.set("test", 1).set("ko", *goffset());
